@@ -195,11 +195,15 @@ def evaluate(e, env):
 
 
 def _scipy_subclasses(vd):
-    """two ScipyDistribution subclasses, created the documented way (they are part of C05/C11's
-    quantifier; virocon ships the base class only)"""
+    """three ScipyDistribution subclasses, created the two documented ways (they are part of C05/C11's
+    quantifier; virocon ships the base class only): by `scipy_dist_name` (gamma: one shape, beta: two shapes)
+    and by `scipy_dist` (Gumbel: a scipy distribution WITHOUT shape parameters, only loc and scale)"""
+    import scipy.stats as sts
+
     out = []
     for cname, dname in (("GammaScipyDistribution", "gamma"), ("BetaScipyDistribution", "beta")):
         out.append(type(cname, (vd.ScipyDistribution,), {"scipy_dist_name": dname}))
+    out.append(type("GumbelScipyDistribution", (vd.ScipyDistribution,), {"scipy_dist": sts.gumbel_r}))
     return out
 
 
@@ -715,6 +719,9 @@ def random_theta(rng, name, wide=True):
     if name == "BetaScipyDistribution":
         return {"a": lu(-0.3, 0.8), "b": lu(-0.3, 0.8), "loc": float(rng.choice([0.0, u(-2, 2)])),
                 "scale": lu(-1, 1)}
+    if name == "GumbelScipyDistribution":
+        loc = float(rng.choice([0.0, u(-2, 2), lu(-1, 3), -lu(-1, 3)])) if wide else float(rng.choice([0.0, u(-2, 2)]))
+        return {"loc": loc, "scale": lu(-2, 2) if wide else lu(-1, 1)}
     raise KeyError(name)
 
 
